@@ -375,4 +375,29 @@ def mergeScripts (kps : List (SSet × List Nat)) : Except Err (List (SSet × Lis
   let sets := mergeSets (kps.map (·.1))
   reassign sets (sets.map (fun s => (s, []))) kps
 
+/-! ### variable fonts: which kerning pairs `getVariableKerningPairs` collates (kernFeatureWriter.py:477-545) -/
+
+abbrev KP := String × String
+
+/-- a designspace source as `getVariableKerningPairs` sees it: `layerName is not None` (sparse source, skipped) and the
+keys of `source.font.kerning` -/
+structure KSrc where
+  layer : Bool
+  pairs : List KP
+  deriving Repr
+
+/-- `a | set(b)` on duplicate-free lists -/
+def kunion (a b : List KP) : List KP := a ++ b.filter (fun p => !a.contains p)
+
+/-- `all_pairs = set(); for source in designspace.sources: if source.layerName is not None: continue;
+all_pairs |= set(source.font.kerning)` (as a set; the order is irrelevant) -/
+def varAllPairs : List KSrc → List KP
+  | [] => []
+  | s :: r => if s.layer then varAllPairs r else kunion s.pairs (varAllPairs r)
+
+/-- the keys of `kerning_pairs_in_progress`: the pairs of `all_pairs` whose two sides are a kerning class or a glyph of the
+glyph set (`known`); every non-layer source contributes a value for each of them (there is always one, the default) -/
+def varKeys (srcs : List KSrc) (known : List String) : List KP :=
+  (varAllPairs srcs).filter (fun p => known.contains p.1 && known.contains p.2)
+
 end Ufo2ft.C20
